@@ -10,7 +10,7 @@ ID = 'C13'
 LEAN_MODULE = 'PncProofs.C13'
 LEAN_FILE = 'PncProofs/C13.lean'
 NAMESPACE = 'Props.C13'
-LEAN_CONE = ['PncModel.Words', 'PncModel.Camx.Uamiv', 'PncModel.Camx.Slab', 'PncModel.Camx.SlabRead', 'PncModel.Camx.UamivRead', 'PncProofs.WordsLemmas', 'PncProofs.SlabLemmas', 'PncProofs.SlabReadLemmas',
+LEAN_CONE = ['PncModel.Words', 'PncModel.Camx.Uamiv', 'PncModel.Camx.Slab', 'PncModel.Camx.SlabRead', 'PncModel.Camx.UamivRead', 'PncModel.Camx.WindRecRead', 'PncProofs.WordsLemmas', 'PncProofs.SlabLemmas', 'PncProofs.SlabReadLemmas',
              'PncProofs.BridgeLemmas', 'PncProofs.UamivReadLemmas', 'PncProofs.UamivReadEncode', 'PncProofs.C13']
 LEMMA_FILES = ['PncProofs/SlabLemmas.lean', 'PncProofs/BridgeLemmas.lean', 'PncProofs/SlabReadLemmas.lean', 'PncProofs/UamivReadLemmas.lean', 'PncProofs/UamivReadEncode.lean']
 REQUIRED_THEOREMS = ['chunk_records', 'leading_eq', 'mm_decode_encode', 'single_step_rejected', 'read_decode_encode', 'readers_agree', 'read_temp_decode_encode', 'readers_agree_temperature', 'uamiv_readers_agree_words', 'uamiv_read_encode', 'exUamiv_oneDay']
@@ -38,6 +38,20 @@ def gen(rng, tier):
         if i % 5 == 3:
             c = S.gen_wind(rng)
             c['family'] = 'wind'
+            if i % 20 == 18 and len(c['flags']) >= 3:
+                # an irregular time axis: outside the property's domain, inside the models' - readers against their models only
+                fl = [list(x) for x in c['flags']]
+                k = rng.choice(['late', 'dup', 'back', 'gap'])
+                if k == 'late':
+                    fl[-1][1] = (fl[-1][1] + 100) % 2400
+                elif k == 'dup':
+                    fl[-1] = list(fl[-2])
+                elif k == 'back':
+                    fl[-1] = list(fl[0])
+                else:
+                    fl[1][1] = (fl[1][1] + 200) % 2400
+                c['flags'] = fl
+                c['irregular'] = k
         elif i % 5 == 4:
             sub = (i // 5) % 4
             if sub == 3:
@@ -156,7 +170,7 @@ def agree(case, out, res):
     if case['family'] == 'wind':
         if out != 'ok ' + res['hex']:
             return 'the python reference encoder and the Lean wind encoder differ'
-        return S.wind_model_diff(case, res['hex'], res['memmap'])
+        return S.wind_model_diff(case, res['hex'], res['memmap']) or S.wind_rec_model_diff(case, res['hex'], res['read'])
     if case['family'] == 'uamiv':
         d = _agree_uamiv_read_model(res)
         if d or case.get('anyfile'):
